@@ -895,7 +895,7 @@ def rule_l1(ctx: Ctx) -> None:
                 par = [m for m in walk_no_nested(fi.node) if isinstance(m, ast.Attribute) and m.value is node]
                 used = bool(par)
             if used:
-                ctx.violation("C11-L1", fi, st, f"`{unparse(node)[:80]}` keeps the original values of a subset of the entries (not a permutation of 0..k-1) and Perm methods are then called on it; the scans that use len(self) / -1 as sentinels give wrong answers on it")
+                ctx.violation("C11-L1", fi, st, f"`{unparse(node)[:80]}` keeps the original values of a subset of the entries (not a permutation of 0..k-1) and Perm methods are then called on it; the scans that use len(self) / -1 as sentinels give wrong answers on it", tag="unstandardised-sub-permutation")
             else:
                 ctx.ok("C11-L1", fi.where, f"`{unparse(node)[:60]}`: no Perm method is called on the un-standardised value", st, fi)
     if n < 3:
